@@ -6,12 +6,14 @@ Three groups of conditions, all on the repository's real code:
                built from selectors: arbitrary top-level values and, inside a fixed
                well-formed frame, one field of one role (State of each Type, Retrier,
                Catcher, Choice Rule, Nested Rule, Branch) carrying a value of every JSON
-               kind (right and wrong types), incl. short symbolic strings / small ints.
+               kind (right and wrong types, strings/ints from concrete pools); plus
+               lint_sym_string: a symbolic string at every sink that looks inside strings.
  (B) agree_*   a two-level machine skeleton whose structure fields are chosen by symbolic
                selectors goes through the real validator AND (when accepted) through
                the real StateEngine.notify under a FIFO driver; an accepted definition
                must never end FAILED/States.Runtime with one of the engine's four
-               "Illegal State Machine" defences.
+               "Illegal State Machine" defences (nor restart itself through an empty
+               state name).
  (C) poison_*  the real EventDispatcher.dispatch/acknowledge + StateEngine.notify are
                fed a poison delivery between the deliveries of a healthy execution.
 """
@@ -31,7 +33,8 @@ ASSUMPTIONS = [
     "clock/uuid/logger stubs (vf.stubs); in (B) EventDispatcher/TaskDispatcher are the recording stubs of stubs.make_engine; a FIFO driver re-delivers every published event in order (single instance, no redelivery, no reordering)",
     "Task states: the recorded execute_task callback is invoked once with the success result {'ok': 1}; Wait states: the recorded timer callback is fired; retry/heartbeat timers never fire on their own",
     "every run is bounded to 14 driver steps (unwinding bound; the skeleton needs at most 9); a run that is still live at the bound is classified 'live', not as a failure",
-    "structure fields (Type, targets, End, presence / JSON kind of required fields, state names) are concrete per path, chosen by symbolic selectors from small pools; symbolic data proper (short strings, small ints) is used in (A) and in the positions noted in (C)",
+    "structure fields (Type, targets, End, presence / JSON kind of required fields, state names) are concrete per path, chosen by symbolic selectors from small pools; genuinely symbolic data (short strings, small ints) is used in lint_sym_string and poison_symbolic",
+    "concrete fast path: when every input of a path is a plain concrete JSON value (checked: exact builtin types, a symbolic proxy is refused) the real validator / engine / dispatcher are run outside the CrossHair tracer (natively()); the solver enumerates the selector space exhaustively; agree_traced_slice cross-checks a slice fully traced",
     "(C) EventDispatcher is built without a broker (__new__): publish/broadcast/set_timeout/clear_timeout are recording instance attributes, dispatch and acknowledge are the real methods; the delivery is a fake message object with body/message_id/redelivered/acknowledge(multiple=False)",
     "(C) opentracing is the no-op tracer the engine installs when no tracer is configured",
 ]
@@ -370,6 +373,8 @@ def set_path(m, path, k):
     for key in path[:-1]:
         node = node[key]
     last = path[-1]
+    if isinstance(node, dict) and not isinstance(last, str):
+        raise KeyError(last)            # an array index into what is now an object: the member no longer exists
     if k == ABSENT:
         if isinstance(node, dict):
             node.pop(last, None)
@@ -925,7 +930,7 @@ def agree_kinds_rest(fails: bool, achoice: bool, f: int, k: int) -> bool:
 PK = [0, 1, 7, 8, 10, 13]       # kinds used in pairs: absent, null, "", "B", [], {}
 
 
-@condition(timeout={"quick": 180, "thorough": 900}, tiers=("thorough",), functions=_B_FUNCS, outside=_B_OUT)
+@condition(timeout={"quick": 180, "thorough": 1500}, tiers=("thorough",), functions=_B_FUNCS, outside=_B_OUT)
 def agree_kinds_pair(achoice: bool, f1: int, k1: int, f2: int, k2: int) -> bool:
     """
     requires: 0 <= f1 < f2 < len(FIELDS_REST) and 0 <= k1 < len(PK) and 0 <= k2 < len(PK)
@@ -1013,7 +1018,7 @@ def poison_sym_run(pos, s, i):
     return "ok"
 
 
-@condition(timeout={"quick": 180, "thorough": 600}, bounds={"quick": {"N": 1, "AL": "'H1{\"'"}, "thorough": {"N": 2, "AL": "'H1{\"[:'"}},
+@condition(timeout={"quick": 180, "thorough": 1200}, bounds={"quick": {"N": 1, "AL": "'H1{\"'"}, "thorough": {"N": 2, "AL": "'H1{\"[:'"}},
            functions=_C_FUNCS + ["json.loads of the delivered body"],
            outside=["strings longer than the tier bound / outside the tier alphabet; ints outside -1..2"])
 def poison_symbolic(pos: int, s: str, i: int) -> bool:
